@@ -1661,3 +1661,96 @@ Proof.
   cbv zeta. eexists. eexists. eexists.
   split; [vm_compute; reflexivity|]. split; [vm_compute; reflexivity|]. vm_compute. repeat split; reflexivity.
 Qed.
+
+(* ====================================================================== more SACK blocks than fit *)
+(* the endpoint may hold up to 6 SACK blocks; EncodeSACKBlocks writes only those that fit (3 after
+   a timestamp option, 4 otherwise), so the emitted options are those of the truncated list
+   (the argument is the one inside TcpOptionsP.parse_recovers_options) *)
+Lemma make_options_trunc (tsOk : bool) tsVal tsEcr (sackPermitted : bool) blocks buf :
+  wf_opt tsVal tsEcr blocks -> length buf = maxOptionSize ->
+  let n := if tsOk then 3%nat else 4%nat in
+  make_options (opt_program tsOk tsVal tsEcr sackPermitted blocks) buf =
+  make_options (opt_program tsOk tsVal tsEcr sackPermitted (firstn n blocks)) buf.
+Proof.
+  intros (Hv & He & Hbl) Hbuf n. unfold maxOptionSize in Hbuf.
+  unfold make_options, opt_program.
+  assert (Hnil : Nat.eqb (length (firstn n blocks)) 0 = Nat.eqb (length blocks) 0).
+  { destruct blocks as [|b bl]; [destruct tsOk; reflexivity|]. subst n. destruct tsOk; reflexivity. }
+  rewrite Hnil.
+  destruct (sackPermitted && negb (Nat.eqb (length blocks) 0)) eqn:ES; [|reflexivity].
+  apply andb_true_iff in ES as [_ ES]. apply negb_true_iff, Nat.eqb_neq in ES.
+  assert (Hne : blocks <> []) by (intros ->; apply ES; reflexivity).
+  set (pre := (if tsOk then [INop; INop; ITS tsVal tsEcr] else []) ++ [INop; INop]).
+  change ((if tsOk then [INop; INop; ITS tsVal tsEcr] else []) ++ [INop; INop; ISack blocks])
+    with ((if tsOk then [INop; INop; ITS tsVal tsEcr] else []) ++ [INop; INop] ++ [ISack blocks]).
+  change ((if tsOk then [INop; INop; ITS tsVal tsEcr] else []) ++ [INop; INop; ISack (firstn n blocks)])
+    with ((if tsOk then [INop; INop; ITS tsVal tsEcr] else []) ++ [INop; INop] ++ [ISack (firstn n blocks)]).
+  rewrite !app_assoc. fold pre. rewrite !emit_items_app.
+  assert (Hpre : Forall wf_item pre) by (subst pre; destruct tsOk; cbn [app]; wf_items).
+  assert (Lpre : length (wire pre) = if tsOk then 14%nat else 2%nat) by (subst pre; destruct tsOk; reflexivity).
+  pose proof (emit_items_wire pre [] buf Hpre ltac:(rewrite Lpre, Hbuf; destruct tsOk; lia)) as E.
+  cbn [app length] in E. rewrite E. clear E.
+  unfold emit_items. cbn [fold_left]. unfold emit. rewrite skipn_app_exact.
+  set (rest := skipn (length (wire pre)) buf).
+  assert (Lrest : length rest = if tsOk then 26%nat else 38%nat).
+  { subst rest. rewrite skipn_length, Lpre, Hbuf. destruct tsOk; reflexivity. }
+  destruct (encodeSACKBlocks_trunc blocks rest Hne ltac:(rewrite Lrest; destruct tsOk; lia)) as (_ & _ & _ & _ & ET).
+  assert (Hne' : firstn n blocks <> []).
+  { destruct blocks as [|b bl]; [congruence|]. subst n. destruct tsOk; discriminate. }
+  destruct (encodeSACKBlocks_trunc (firstn n blocks) rest Hne' ltac:(rewrite Lrest; destruct tsOk; lia)) as (_ & _ & _ & _ & ET').
+  cbn [encode_item] in *. rewrite ET, ET'.
+  assert (EN : firstn (sack_fit (length blocks) (length rest)) blocks = firstn n blocks).
+  { rewrite Lrest. unfold sack_fit. subst n.
+    destruct tsOk.
+    - change ((Z.of_nat 26 - 2) / 8) with 3.
+      destruct (Nat.le_gt_cases (length blocks) 3) as [Q|Q].
+      + rewrite !firstn_all2 by lia. reflexivity.
+      + f_equal. lia.
+    - change ((Z.of_nat 38 - 2) / 8) with 4.
+      destruct (Nat.le_gt_cases (length blocks) 4) as [Q|Q].
+      + rewrite !firstn_all2 by lia. reflexivity.
+      + f_equal. lia. }
+  assert (EN' : firstn (sack_fit (length (firstn n blocks)) (length rest)) (firstn n blocks) = firstn n blocks).
+  { apply firstn_all2. rewrite Lrest. unfold sack_fit. rewrite firstn_length. subst n.
+    destruct tsOk.
+    - change ((Z.of_nat 26 - 2) / 8) with 3. lia.
+    - change ((Z.of_nat 38 - 2) / 8) with 4. lia. }
+  rewrite EN, EN'. reflexivity.
+Qed.
+
+(* the segment theorem without the bound on the number of blocks *)
+Theorem seg_frame_wf4_any r sp dp data fl sq ak wnd (tsOk : bool) tsVal tsEcr (sackPermitted : bool) blocks pool ttl c :
+  rOffload r = false ->
+  length (rLocal r) = 4%nat -> length (rRemote r) = 4%nat -> bytes_ok (rLocal r) -> bytes_ok (rRemote r) ->
+  Rfc.src4_ok (rLocal r) = true ->
+  0 <= sp < 65536 -> 0 <= dp < 65536 -> 0 <= fl < 256 -> flag_sane fl = true -> Rfc.has fl Rfc.SYN = false ->
+  wf_opt tsVal tsEcr blocks -> length pool = maxOptionSize ->
+  Forall bytes_ok data -> nonfinal_even data -> vsize data <= 65455 -> 1 <= ttl < 256 ->
+  exists hdr frame c',
+    send_raw r sp dp data fl sq ak wnd tsOk tsVal tsEcr sackPermitted blocks pool = Some hdr /\
+    ipv4_write r hdr data 6 ttl c = Some (frame, c') /\
+    Rfc.wf_ipv4 false frame = true /\
+    Rfc.ivSrc (Rfc.view_ip4 frame) = rLocal r /\ Rfc.ivDst (Rfc.view_ip4 frame) = rRemote r /\
+    Rfc.ivPayload (Rfc.view_ip4 frame) = hdr ++ concat data /\
+    Rfc.tvSport (Rfc.view_tcp (hdr ++ concat data)) = sp /\ Rfc.tvDport (Rfc.view_tcp (hdr ++ concat data)) = dp /\
+    Rfc.tvSeq (Rfc.view_tcp (hdr ++ concat data)) = w32 sq /\ Rfc.tvAck (Rfc.view_tcp (hdr ++ concat data)) = w32 ak /\
+    Rfc.tvFlags (Rfc.view_tcp (hdr ++ concat data)) = fl /\
+    Rfc.tvWnd (Rfc.view_tcp (hdr ++ concat data)) = w16 (clampw wnd) /\
+    Rfc.tvPayload (Rfc.view_tcp (hdr ++ concat data)) = concat data /\
+    parseTCPOptions (Rfc.tvOpts (Rfc.view_tcp (hdr ++ concat data))) =
+      Ok (mkOpts tsOk (if tsOk then tsVal else 0) (if tsOk then tsEcr else 0)
+                 (if sackPermitted then firstn (if tsOk then 3 else 4) blocks else [])).
+Proof.
+  intros Hoff Ls Ld Bs Bd Hsrc Hsp Hdp Hfl Hsane Hsyn Hwf Hpool Bdata Hev Hsz Httl.
+  set (n := if tsOk then 3%nat else 4%nat).
+  assert (Hwf' : wf_opt tsVal tsEcr (firstn n blocks)).
+  { destruct Hwf as (A & B & C). split; [exact A|]. split; [exact B|]. apply Forall_firstn, C. }
+  assert (Hn : (length (firstn n blocks) <= (if tsOk then 3%nat else 4%nat))%nat).
+  { rewrite firstn_length. subst n. destruct tsOk; lia. }
+  destruct (seg_frame_wf4 r sp dp data fl sq ak wnd tsOk tsVal tsEcr sackPermitted (firstn n blocks) pool ttl c
+              Hoff Ls Ld Bs Bd Hsrc Hsp Hdp Hfl Hsane Hsyn Hwf' Hn Hpool Bdata Hev Hsz Httl)
+    as (hdr & frame & c' & Hs & Rest).
+  exists hdr, frame, c'. split; [|exact Rest].
+  unfold send_raw, make_seg_options in *. rewrite (make_options_trunc tsOk tsVal tsEcr sackPermitted blocks pool Hwf Hpool).
+  exact Hs.
+Qed.
